@@ -74,24 +74,29 @@ Proof. exact wake_premises. Qed.
 (* the property itself on a class of workflows, for every run (Progress.v): a workflow of steps in sequence whose acts are
    interactive (irq) acts or message (msg) acts -- frag_nodes: no conditions, branches, catches, setup / hooks or function
    acts; any inputs, outputs and timeout declarations -- under any schedule (OSched k picks any queued task, ODrain runs them all) and any
-   accepted or rejected complete / submit / remove actions on any task at any moment (frag_op) is never stuck: when
+   accepted or rejected complete / submit / remove / skip actions on any task at any moment (frag_op) is never stuck: when
    nothing is queued and the process has not ended, some act is interrupted, i.e. waits for a client.  No hypothesis on
    fuel: in this class the review chain is act -> step -> workflow.  The invariant is that every open task is queued, or
    interrupted, or running over an open task whose parent it is. *)
 Theorem C01_progress_sequential_interactive :
   forall ns c0 ops, frag_nodes ns = true -> forallb frag_op ops = true -> stuck (run ns c0 ops) = false.
 Proof. exact sequential_interactive_never_stuck. Qed.
+(* ... and on the class the model never runs out of fuel and never takes the scheduler's error path: the statement above is
+   not true for want of fuel *)
+Theorem C01_class_runs_never_exhaust_fuel :
+  forall ns c0 ops, frag_nodes ns = true -> forallb frag_op ops = true -> oof (run ns c0 ops) = false /\ exn (run ns c0 ops) = false.
+Proof. exact class_runs_total. Qed.
 Theorem C01_progress_sequential_interactive_built :
   forall w ops, option_map frag_nodes (build_tree 30 w) = Some true -> forallb frag_op ops = true ->
   option_map stuck (go w ops) = Some false.
 Proof. exact go_never_stuck. Qed.
 (* the class is inhabited and its runs are not trivial: two steps, three interactive acts and a message act, outputs; at rest after the start act 2
-   waits; after complete / submit / remove (one step picked by the scheduler out of order) the process has completed *)
+   waits; after complete / submit / skip (one step picked by the scheduler out of order) the process has completed *)
 Example C01_class_inhabited :
   option_map frag_nodes (build_tree 30 w_seq) = Some true /\ forallb frag_op ops_seq = true /\
   option_map (fun e => (queue e, pstate e, st e 2)) (go w_seq []) = Some ([], SRunning, SInterrupt) /\
   option_map (fun e => (queue e, pstate e, map (fun t => st e t) (all_tasks e))) (go w_seq ops_seq)
-    = Some ([], SCompleted, [SCompleted; SCompleted; SCompleted; SCompleted; SSubmitted; SCompleted; SRemoved]).
+    = Some ([], SCompleted, [SCompleted; SCompleted; SCompleted; SCompleted; SSubmitted; SCompleted; SSkipped]).
 Proof. split; [exact w_seq_in_class|]. split; [exact ops_seq_in_class|]. exact w_seq_runs. Qed.
 
 Print Assumptions C01_progress_refuted_needs_cycle.
@@ -105,3 +110,4 @@ Print Assumptions C01_partial_last_child_closes_act.
 Print Assumptions C01_partial_closed_act_reviews_its_parent.
 Print Assumptions C01_progress_sequential_interactive.
 Print Assumptions C01_progress_sequential_interactive_built.
+Print Assumptions C01_class_runs_never_exhaust_fuel.
